@@ -1,4 +1,7 @@
-use std::{borrow::Cow, collections::HashSet};
+use std::{
+    borrow::Cow,
+    collections::{HashMap, HashSet},
+};
 
 use full_moon::{
     ast::{self, VarExpression},
@@ -170,6 +173,18 @@ struct ScopeVisitor {
 
     // How many function bodies enclose the node being visited
     function_depth: usize,
+
+    // The variables of a for loop are defined when its body is entered: functions inside the
+    // control expressions are evaluated before the variables exist. Keyed by the address of the body.
+    pending_loops: HashMap<usize, PendingLoop>,
+}
+
+struct PendingLoop {
+    // Name, definition range, the expression first written to it
+    variables: Vec<(TokenReference, Range, Option<Range>)>,
+
+    // A numeric for keeps its variable in a scope of its own, around the scope of the body
+    body_scope: bool,
 }
 
 #[derive(Debug)]
@@ -195,6 +210,10 @@ fn create_scope<N: Node>(node: N) -> Option<Scope> {
     } else {
         None
     }
+}
+
+fn block_key(block: &ast::Block) -> usize {
+    block as *const ast::Block as usize
 }
 
 fn range<N: Node>(node: N) -> (usize, usize) {
@@ -292,6 +311,7 @@ impl ScopeVisitor {
 
                 else_blocks: HashSet::new(),
                 function_depth: 0,
+                pending_loops: HashMap::new(),
             };
 
             output.visit_ast(ast);
@@ -854,6 +874,17 @@ impl Visitor for ScopeVisitor {
     }
 
     fn visit_block(&mut self, block: &ast::Block) {
+        if let Some(pending_loop) = self.pending_loops.remove(&block_key(block)) {
+            for (name, definition_range, write_expr) in pending_loop.variables {
+                self.define_name(&name, definition_range);
+                self.write_name(&name, write_expr);
+            }
+
+            if pending_loop.body_scope {
+                self.open_scope(block);
+            }
+        }
+
         if let Some((start, end)) = block.range() {
             if self.else_blocks.contains(&(start.bytes(), end.bytes())) {
                 self.close_scope(); // close the if or elseif's block
@@ -1001,10 +1032,17 @@ impl Visitor for ScopeVisitor {
 
         self.open_scope(generic_for.block());
 
-        for name in generic_for.names() {
-            self.define_name(name, range(name));
-            self.write_name(name, None);
-        }
+        self.pending_loops.insert(
+            block_key(generic_for.block()),
+            PendingLoop {
+                variables: generic_for
+                    .names()
+                    .iter()
+                    .map(|name| (name.to_owned(), range(name), None))
+                    .collect(),
+                body_scope: false,
+            },
+        );
     }
 
     fn visit_generic_for_end(&mut self, _: &ast::GenericFor) {
@@ -1067,14 +1105,18 @@ impl Visitor for ScopeVisitor {
         }
 
         self.open_scope(numeric_for);
-        self.define_name(numeric_for.index_variable(), variable_range);
 
-        self.write_name(
-            numeric_for.index_variable(),
-            Some(range(numeric_for.start())),
+        self.pending_loops.insert(
+            block_key(numeric_for.block()),
+            PendingLoop {
+                variables: vec![(
+                    numeric_for.index_variable().to_owned(),
+                    variable_range,
+                    Some(range(numeric_for.start())),
+                )],
+                body_scope: true,
+            },
         );
-
-        self.open_scope(numeric_for.block());
     }
 
     fn visit_numeric_for_end(&mut self, _: &ast::NumericFor) {
